@@ -58,6 +58,7 @@ def run(ctx):
     ck.rule("R16c", "the decoders (and the interpreter) are recursion-free")
     ck.rule("R16d", "every routine that consumes an atom body fails on a short read")
     ck.rule("R16e", "explicit panic sites in the decoders are audited")
+    ck.rule("R16f", "every test against MAX_SINGLE_BYTE is the same test (byte <= 0x7f, or its negation byte > 0x7f)")
     ck.assume("equal consumption and equal trees across decoders are value properties not decided here")
 
     # ---- R16a
@@ -187,6 +188,32 @@ def run(ctx):
                         found = True
         ck.ob("R16d", p, found, "the remaining input is compared with the decoded size before the body is sliced (short input is an error, not a panic)",
               site=f.where(0))
+
+    # ---- R16f: the single-byte boundary is tested the same way everywhere (siblings must agree on <= vs <)
+    n_sb = 0
+    for p, f in sorted(cr.fns.items()):
+        if is_test_fn(f):
+            continue
+        for b in sorted(f.reachable_blocks()):
+            if f.term(b)["k"] != "switch":
+                continue
+            e = strip(f.switch_cond(b))
+            while e[0] == "un" and e[1] == "Not":
+                e = strip(e[2])
+            if e[0] != "bin" or e[1] not in ("Lt", "Le", "Gt", "Ge", "Eq", "Ne"):
+                continue
+            lhs, rhs = strip(e[2]), strip(e[3])
+            side = None
+            for nm, x in (("rhs", rhs), ("lhs", lhs)):
+                if x[0] == "const" and (x[2] or "").endswith("MAX_SINGLE_BYTE"):
+                    side = nm
+            if side is None:
+                continue
+            n_sb += 1
+            ok = (side == "rhs" and e[1] in ("Le", "Gt")) or (side == "lhs" and e[1] in ("Ge", "Lt"))
+            ck.ob("R16f", f"{p}|{show(e)[:60]}", ok, "a byte is a single-byte atom iff byte <= MAX_SINGLE_BYTE (0x7f itself included)",
+                  site=f.where(b), detail=show(e)[:120])
+    ck.floor("tests against MAX_SINGLE_BYTE", n_sb, 7)
 
     # ---- R16e
     allp = {}
